@@ -1,7 +1,7 @@
 (* C09: depth() is the critical-path length of the inlined circuit.
    Statements only; proofs are in Depth/Depth.v and Depth/DepthModel.v. *)
 From Coq Require Import ZArith List Bool String.
-From Verif Require Import BGate PyVal Ast State Unroll Spec Depth DepthModel DepthSpec FixProofs.
+From Verif Require Import BGate PyVal Ast State Unroll Spec Depth DepthModel DepthSpec FixProofs SpecFlat.
 Import ListNotations.
 Open Scope Z_scope.
 
@@ -83,6 +83,18 @@ Proof.
   rewrite E1 in Ho. injection Ho as <-. rewrite D1. exact (depth_upper rsrc_eqb rsrc_eqb_spec (evs_of p) r n Hc).
 Qed.
 Print Assumptions C09_flat_program_no_chain_is_longer.
+
+(* the check's oracle is the critical path of the REFERENCE trace (Depth/DepthSpec.v: spec_depth over the operations the
+   reference semantics executes); on every well-formed flat program (conditionals on quantum operations, bit registers without
+   initial value) the reference semantics executes operations with exactly the program's events, so the oracle's depth is the
+   total of the very recurrence the model's counters satisfy: oracle and model measure the same thing on these programs *)
+Theorem C09_reference_depth_and_model_counters_agree_on_flat_programs strict p :
+  wf_flat env0 p = true -> forallb quantum_blocks p = true -> forallb no_bit_init p = true -> (ldepth p < default_fuel)%nat ->
+  exists tr o, spec_run strict false [] p = Ok tr /\ run_visit false true [] default_fuel p = Ok o /\
+    spec_depth tr = total_depth rsrc_eqb (List.concat (evs_of p)) (evs_of p) /\
+    forall r, dof (o_state o) r = depth_after rsrc_eqb (evs_of p) r.
+Proof. exact (reference_depth_is_model_depth strict p). Qed.
+Print Assumptions C09_reference_depth_and_model_counters_agree_on_flat_programs.
 
 Example C09_flat_program_example :
   let q i := QIdx "q" [IdxList [IExpr (ELit (VInt i))]] in
